@@ -23,7 +23,8 @@ EXPLANATION = (
     'Python evaluates after it, and after the construct; R5 no region produced inside a child '
     'is dropped (continuity) and every block Python can reach from a block is reachable in '
     "supp's region graph; R6 lint's E02/E42 and assist's name branch consult names_at of the "
-    "read's own region and position. Each failure is a concrete in-domain program class with a "
+    "read's own region and position; R7 SourceScope.resolve_star_imports, abstractly interpreted, binds every public name of "
+    'every resolvable star import and skips (does not stop at) an unresolvable one. Each failure is a concrete in-domain program class with a '
     'false E02/E42. The value-level correctness of lookups for arbitrary programs is NOT decided.')
 TECHNIQUE = ('abstract interpretation of the extractor over grammar shapes (visitor summaries) + '
              'exhaustiveness/placement/visibility rules against Python-reference tables')
@@ -134,6 +135,10 @@ def run(repo, res):
                   'undefined there' % (r['cls'], r['b'], r['cls'], r['a'], r['a'], r['b'], r['a']),
                   sample='%s: bindings of block %s reach block %s' % (r['cls'], r['a'], r['b']))
     res.count('block_pairs', nblocks, floor=100)
+
+    # ---- R7 star imports ---------------------------------------------------------------------------
+    from .. import resolve_model as M
+    M.check_star_imports(repo, res, 'C01-R7')
 
     # ---- R6 lint / assist wiring -------------------------------------------------------
     lint = repo.module_func(LINTER, 'lint')
